@@ -172,6 +172,10 @@ func evalClause(s *slip.Scope, clause slip.List, v any, depth int) (result slip.
 	}
 	for i := 2; i < len(clause); i++ {
 		result = slip.EvalArg(ns, clause, i, depth)
+		if _, exit := result.(slip.NonLocalExit); exit {
+			// return-from, return or go: control is leaving the body.
+			return
+		}
 	}
 	return
 }
